@@ -4,14 +4,21 @@ from props import predicate, kv, unhex  # noqa: F401
 
 CONFIG = {
     "design_ref": "4.3",
-    "technique": "Lean 4 proof: executable model of write_term/write_triple/quoted_string (escape table regenerated from "
-                 "the match arms of quoted_string) and an independent reader transcribed from the W3C N-Quads grammar "
+    "technique": "Lean 4 proof: executable model of write_term/write_triple/quoted_string/the serialize_* closures, "
+                 "INTERPRETED from tables regenerated from the source (op sequences of every arm of write_term, the literal "
+                 "decision tree and the NsTerm it elides, write_triple, the per-statement closures, serialize_graph/dataset "
+                 "defaults; escape table from the match arms of quoted_string) and an independent reader transcribed from the W3C N-Quads grammar "
                  "(+ N-Triples-star); theorems reader . writer = id, and byte loop on UTF-8 = encoding of the scalar-value "
                  "writer; byte-exact differential vs NtSerializer/NqSerializer through every public entry point "
                  "(serialize_triples/quads, serialize_graph/dataset on Vec and HashSet; stringifier, short-write, "
                  "BufWriter and failing sinks; pure-ASCII option), the grammar reader run on the bytes the real "
                  "serializer wrote, and reader differential vs Rio's nt/nq parsers (parse_str and parse_bufread)",
-    "level_text": "Proof (unbounded: all Unicode strings, all well-formed terms, all finite datasets) about the model: "
+    "level_text": "Proof (unbounded: all Unicode strings, all well-formed terms, all finite datasets) about the model, which is "
+                  "now the interpreter of the regenerated writer tables (writeTermT_eq / writeQuadT_eq / writeDocT_eq: it equals the "
+                  "reference writer for every input; elide_iff: ^^<dt> is omitted exactly for xsd:string; "
+                  "read_write_doc_generated: the property for the generated writer on the toolkit-valid domain; fuel and delimiter "
+                  "hypotheses discharged (read_term_fuel, delim_at_writer_positions), every guard of quadOk and delim shown necessary "
+                  "by kernel-checked witnesses): "
                   "unescape(quotedString s) = s for every string; the escaped text has no raw quote, backslash, CR or LF; a "
                   "written quad is exactly one line, a document has one LF per statement and each line reads as its quad on "
                   "its own; the loop of quoted_string run on the UTF-8 bytes of a text writes the UTF-8 encoding of "
@@ -40,8 +47,10 @@ CONFIG = {
                   "the oracles (round trip through Rio, line discipline, grammar reader on the bytes; `ascii_only=` is reported, not required). "
                   "Set containers (HashSet) are compared as sorted sets of lines. A serializer panic / error on an "
                   "in-domain dataset is an oracle failure (rt=panic against o.rt=1), not only a disagreement. "
+                  "Remains differential only: Rio (the real parsers) returning the input quads; Term accessors of the "
+                  "input term types (C02); what `?` / io errors do beyond `fail<n>` sinks. "
                   "Trusted: grammar transcription in Model/NT.lean.",
-    "tables": ["ntescapes", "ntascii", "regexes"],
+    "tables": ["ntescapes", "ntascii", "ntwriter", "term_kind", "regexes"],
     "lean_targets": ["SophiaProofs.Props.C03", "SophiaProofs.Audit.C03"],
     "theorems": ["escape_table_ok", "unescape_quoted", "quoted_clean", "quoted_no_panic", "quoted_rs_eq", "quoted_loop_inv", "one_line", "read_write_term",
                  "read_write_quad", "read_write_doc", "read_write_doc_nt", "write_injective", "writeTerm_injective",
@@ -49,11 +58,14 @@ CONFIG = {
                  "lang_tag_guard", "lang_tag_guard_excl", "lang_tag_wider", "valid_termOk", "domain_quadOk",
                  "read_write_doc_valid",
                  "quoted_bytes_eq", "utf8_is_toUTF8", "quoted_bytes_no_panic", "unescape_quoted_bytes", "doc_lines",
-                 "each_line_reads"],
+                 "each_line_reads",
+                 "nsTermEq_iff", "writer_flags_ok", "elide_iff", "writeTermT_eq", "writeQuadT_eq", "writeDocT_eq",
+                 "read_write_doc_generated", "read_term_fuel", "guards_necessary", "delim_necessary",
+                 "delim_at_writer_positions"],
     # whole-regex side-language obligations (validators vs grammar terminals) are evaluated natively by the
     # verified decision procedure; the round-trip theorems themselves use no native_decide
     "native_ok": ["iri_regex_sub_iriref", "bnode_id_sub_label", "bcp47_sub_langtag", "bcp47_sub_lang_tag",
-                  "lang_tag_guard", "lang_tag_guard_excl", "valid_termOk", "domain_quadOk", "read_write_doc_valid"],
+                  "lang_tag_guard", "lang_tag_guard_excl", "valid_termOk", "domain_quadOk", "read_write_doc_valid", "read_write_doc_generated"],
     "trivial_re": r"^ok=0|skip=|^bad-",
     "rule": "escape level: every escape class alone, all ordered pairs/triples of the critical characters, every "
             "escapable character as last byte after 10 kinds of prefix, random "
@@ -72,8 +84,9 @@ CONFIG = {
                      "RFC 5646 section 2.1 transcription (NT.G.BCP47), cross-checked per case against oxilangtag"],
     "assumptions": ["str::as_bytes is the UTF-8 encoding String.utf8EncodeChar specifies (the byte/scalar-value agreement "
                     "itself is now the theorem quoted_bytes_eq; exercised byte-exactly on non-ASCII text)",
-                    "write_term / write_triple / the per-quad closures are hand transcriptions (only quoted_string's table "
-                    "and control flow are regenerated), tied by the byte-exact differential"],
+                    "the op language of tools/extractors/c03.py (write_all of a constant / of a component, quoted_string, "
+                    "write_triple, write_term, each followed by `?`) means what NT.interp says; anything outside it fails the "
+                    "extractor; still exercised by the byte-exact differential"],
     "exec_timeout": 2400,   # thorough: model ~80 s, real code ~35 s on an idle machine; a slow machine must not raise an alarm
 }
 
